@@ -2,4 +2,5 @@ From Coq Require Import Extraction ExtrOcamlBasic.
 From OV Require Import Common.Base C15.Model.
 Extraction Language OCaml.
 Extraction "C15_model.ml" repaired defective effective configure step cstep comp_init stats
-  mon_disjoint mon_range mon_limit mon_paired mon_trace rev_lookup all_blocks blocks_of.
+  mon_disjoint mon_range mon_limit mon_paired mon_trace rev_lookup all_blocks blocks_of
+  mconfigure configure_all mstep mon_xdisjoint.
